@@ -149,7 +149,8 @@ def rule_consts(facts, rep):
         rep.check(v == 1 << i, "consts", it["path"], f"=1<<{i}", f"{n} = {v}, expected single bit {1 << i}", f"{it['file']}:{it['ln']}")
         rep.count()
     plain = [v for n, v, _ in ac.effect_consts(facts) if n == "PLAIN"]
-    rep.check(plain == [0], "consts", E + "PLAIN", "=0", f"{plain}", "")
+    # the private name for the empty set is optional (what `new()` returns is decided in the bitwise rule); if present it is 0
+    rep.check(plain in ([0], []), "consts", E + "PLAIN", "=0", f"{plain}", "")
     st = facts.item("anstyle", "anstyle::effect::Effects", "Struct")
     rep.check([f["ty"] for f in st["variants"][0]["fields"]] == ["u16"], "consts", st["path"], "newtype-u16", "", f"{st['file']}:{st['ln']}")
 
